@@ -66,6 +66,8 @@ pub trait Scenario: Sync {
 pub struct Exec {
     /// number of choices at every step
     pub widths: Vec<u16>,
+    /// number of enabled (not demoted) tasks at every step: the candidates for a demotion
+    pub en_widths: Vec<u16>,
     pub viols: Vec<(String, String)>,
     pub class: String,
     pub cap_hit: bool,
@@ -73,6 +75,12 @@ pub struct Exec {
 }
 
 pub const STEP_CAP: usize = 20_000;
+
+/// Schedule alternatives `DEMOTE_BASE + k` mean: demote the k-th enabled task at this step (it is not run again until
+/// no other task is enabled and no user/fault action is left to issue), then continue with the default choice. This is
+/// the CHESS notion of a preemption (the preempted thread stays descheduled until the others block) — one deviation
+/// that delays a task for a long time, where an ordinary deviation delays it by one position.
+pub const DEMOTE_BASE: usize = 1000;
 
 /// Run one execution under `schedule` (sorted list of (step, alternative index)).
 pub fn run_one<S: Scenario>(scn: &S, schedule: &[(usize, usize)], seed: u64) -> Exec {
@@ -92,7 +100,7 @@ pub fn run_one<S: Scenario>(scn: &S, schedule: &[(usize, usize)], seed: u64) -> 
 }
 
 /// Let the kernel and tokio's I/O driver deliver socket readiness: returns true if some task became enabled.
-async fn settle_io(w: &mut World) -> bool {
+pub async fn settle_io(w: &mut World) -> bool {
     // quiescent = nothing became enabled during several consecutive driver turns separated by short real-time pauses
     for round in 0..12 {
         tokio::task::yield_now().await;
@@ -122,6 +130,7 @@ fn run_one_here<S: Scenario>(scn: &S, schedule: &[(usize, usize)], seed: u64) ->
             let (max_ticks, tick) = scn.time();
             let mut sched = schedule.iter().peekable();
             let mut step = 0usize;
+            let mut demoted: std::collections::BTreeSet<usize> = Default::default();
             loop {
                 if step >= STEP_CAP {
                     ex.cap_hit = true;
@@ -133,6 +142,33 @@ fn run_one_here<S: Scenario>(scn: &S, schedule: &[(usize, usize)], seed: u64) ->
                     en = w.driver.enabled_fifo();
                 }
                 let lazy = scn.lazy_count(&st, &w);
+                if !demoted.is_empty() {
+                    en.retain(|t| !demoted.contains(t));
+                    if en.is_empty() && lazy == 0 {
+                        // everybody else is blocked and the user has nothing left to issue: the demoted tasks run again
+                        demoted.clear();
+                        en = w.driver.enabled_fifo();
+                    }
+                }
+                ex.en_widths.push(en.len().min(u16::MAX as usize) as u16);
+                if let Some((s, alt)) = sched.peek() {
+                    if *s == step && *alt >= DEMOTE_BASE {
+                        let k = *alt - DEMOTE_BASE;
+                        sched.next();
+                        if k >= en.len() {
+                            ex.viols.push((
+                                "machinery/schedule-out-of-range".into(),
+                                format!("schedule asks to demote task {k} of {} at step {step}", en.len()),
+                            ));
+                            break;
+                        }
+                        demoted.insert(en.remove(k));
+                        if en.is_empty() && lazy == 0 {
+                            demoted.clear();
+                            en = w.driver.enabled_fifo();
+                        }
+                    }
+                }
                 let time_choice = ex.ticks_used < max_ticks && (scn.time_deviation() || (en.is_empty() && lazy == 0));
                 let n_choices = en.len() + lazy + usize::from(time_choice);
                 if n_choices == 0 {
@@ -208,6 +244,8 @@ pub struct Stats {
     pub max_steps: usize,
     pub bound_completed: usize,
     pub truncated: bool,
+    /// schedules among `executions` that contain a demotion
+    pub demotion_schedules: u64,
 }
 
 pub struct E2 {
@@ -218,6 +256,10 @@ pub struct E2 {
     pub max_executions: u64,
     /// only deviate at steps < this (keeps the second level tractable); usize::MAX = everywhere
     pub deviate_until_step: usize,
+    /// how many of the `bound` deviations of one schedule may be demotions (see `DEMOTE_BASE`); 0 = none
+    pub demotions: usize,
+    /// schedules that contain a demotion have at most this many deviations in total (<= bound)
+    pub bound_with_demotion: usize,
 }
 
 impl Default for E2 {
@@ -228,6 +270,9 @@ impl Default for E2 {
             seed: 11,
             max_executions: 2_000_000,
             deviate_until_step: usize::MAX,
+            // the environment variable is an experimenting aid; the tiers set the field explicitly
+            demotions: std::env::var("VERIF_E2_DEMOTIONS").ok().and_then(|v| v.parse().ok()).unwrap_or(0),
+            bound_with_demotion: usize::MAX,
         }
     }
 }
@@ -246,7 +291,7 @@ impl E2 {
         // determinism: the default schedule twice, and once more under a second rng seed (select! branch order)
         let base = run_one(scn, &[], self.seed);
         let again = run_one(scn, &[], self.seed);
-        if base.widths != again.widths || base.class != again.class {
+        if base.widths != again.widths || base.en_widths != again.en_widths || base.class != again.class {
             machinery.push(format!("{}: nondeterministic default execution (same seed)", scn.name()));
         }
         let viols: Mutex<BTreeMap<String, (String, Vec<(usize, usize)>, u64)>> = Mutex::new(BTreeMap::new());
@@ -275,20 +320,33 @@ impl E2 {
         stats.max_steps = base.widths.len();
         stats.per_bound.push(1);
         // frontier of schedules at the current number of deviations, with the widths of their executions
-        let mut frontier: Vec<(Vec<(usize, usize)>, Vec<u16>)> = vec![(vec![], base.widths.clone())];
+        let mut frontier: Vec<(Vec<(usize, usize)>, Vec<u16>, Vec<u16>)> = vec![(vec![], base.widths.clone(), base.en_widths.clone())];
+        let mut demotion_schedules = 0u64;
         for depth in 1..=self.bound {
             // children: one more deviation at a later step than the last one
             let mut children: Vec<Vec<(usize, usize)>> = Vec::new();
-            for (sched, widths) in &frontier {
+            for (sched, widths, en_widths) in &frontier {
                 let from = sched.last().map(|(s, _)| s + 1).unwrap_or(0);
+                let n_demotions = sched.iter().filter(|(_, a)| *a >= DEMOTE_BASE).count();
+                let may_demote = n_demotions < self.demotions && depth <= self.bound_with_demotion;
+                let may_deviate = n_demotions == 0 || depth <= self.bound_with_demotion;
                 for (i, w) in widths.iter().enumerate().skip(from) {
                     if i >= self.deviate_until_step {
                         break;
                     }
-                    for alt in 1..(*w as usize) {
+                    for alt in 1..(if may_deviate { *w as usize } else { 0 }) {
                         let mut c = sched.clone();
                         c.push((i, alt));
                         children.push(c);
+                    }
+                    // demoting the only thing that can happen at this step changes nothing
+                    if may_demote && *w >= 2 {
+                        for k in 0..(en_widths.get(i).copied().unwrap_or(0) as usize) {
+                            let mut c = sched.clone();
+                            c.push((i, DEMOTE_BASE + k));
+                            children.push(c);
+                            demotion_schedules += 1;
+                        }
                     }
                 }
             }
@@ -297,7 +355,7 @@ impl E2 {
                 break;
             }
             let next_idx = AtomicU64::new(0);
-            let results: Mutex<Vec<(Vec<(usize, usize)>, Vec<u16>)>> = Mutex::new(Vec::new());
+            let results: Mutex<Vec<(Vec<(usize, usize)>, Vec<u16>, Vec<u16>)>> = Mutex::new(Vec::new());
             let children_ref = &children;
             let keep_widths = depth < self.bound;
             std::thread::scope(|s| {
@@ -311,7 +369,7 @@ impl E2 {
                         let ex = run_one(scn, sched, self.seed);
                         record(&ex, sched);
                         if keep_widths {
-                            results.lock().unwrap().push((sched.clone(), ex.widths));
+                            results.lock().unwrap().push((sched.clone(), ex.widths, ex.en_widths));
                         }
                     });
                 }
@@ -324,6 +382,7 @@ impl E2 {
         if self.bound == 0 {
             stats.bound_completed = 0;
         }
+        stats.demotion_schedules = demotion_schedules;
         stats.executions = executions.load(Ordering::Relaxed);
         stats.steps = steps.load(Ordering::Relaxed);
         stats.cap_hits = cap_hits.load(Ordering::Relaxed);
@@ -364,6 +423,7 @@ pub fn absorb(ctx: &mut Ctx, label: &str, out: Outcome) {
     ctx.cov_add("traces_validated_against_impl", s.executions);
     ctx.cov_add("executions", s.executions);
     ctx.cov_add("step_cap_hits", s.cap_hits);
+    ctx.cov_add("schedules_with_a_demotion", s.demotion_schedules);
     ctx.cov_and("exhaustive", !s.truncated);
     ctx.sub(
         label,
